@@ -56,6 +56,7 @@ class StubLoader:
             for t in reversed(self.inner_trail):
                 append_trail(e, t)
             e._stub_origin = (self, x)
+            e._stub_call_index = len(self.calls) - 1
             e._initial_trail = list(self.inner_trail)
             raise e
         return self.result(x)
@@ -211,6 +212,11 @@ def ghost_env(bound):
         "raised_by": lambda e: getattr(e, "_stub_origin", (None, None))[0],
         "key_at": lambda d, i: list(d.items())[i][0], "val_at": lambda d, i: list(d.items())[i][1],
         "map_len": lambda d: len(d), "ItemKey": _itemkey(), "py_eq": _eq,
+        "origin_idx": lambda e: getattr(e, "_stub_call_index", -10 ** 6),
+        "trail_top": lambda e: (list(get_trail(e)) or [Undefined()])[0],
+        "has_key": lambda d, k: _hashable(k) and k in d,
+        "forall_val": None,
+        "err_rank": lambda e: 2 * getattr(e, "_stub_call_index", -10 ** 6) + (0 if isinstance((list(get_trail(e)) or [None])[0], _itemkey()) else 1),
     }
     return env
 
@@ -331,7 +337,7 @@ def run_scenario(c, mod, sc: Scenario, clauses, param="data"):
     env.update(closure_vars(fn))
     env.update(entry_env)
     n_el = len(recorded) if recorded is not None else len(_elems_of(data)) if not is_oneshot else 0
-    env.update(ghost_env(n_el))
+    env.update(ghost_env(2 * n_el + 2))
     if recorded is not None:
         rec = recorded
         env["elems"] = lambda x, rec=rec, data=data: rec if x is data else _elems_of(x)
@@ -340,6 +346,8 @@ def run_scenario(c, mod, sc: Scenario, clauses, param="data"):
             env[gname] = sc.stubs[gname]
     env.update(out)
     env[param] = data
+    cand = list(out["result"].keys()) if isinstance(out["result"], dict) else []
+    env["forall_val"] = lambda f, cand=cand: all(bool(f(k)) for k in cand)
     bad = []
     for name, expr in clauses.items():
         if name == "modifies-nothing":
